@@ -150,10 +150,20 @@ def size_case(case, rec, ssj, tables_cache):
     for (a, b) in cells:
         d = flt.filter_pair(lv[a + 1], rv[b + 1])
         rec.count('size_pair_calls')
-        if bool(d) == ((a, b) in kept):
-            rec.violation('size_pair_vs_tables', 'SizeFilter(%s,%r): filter_pair says dropped=%r for '
-                          'counts (%d,%d) but filter_tables %s the pair' % (
-                              m, t, d, a, b, 'lists' if (a, b) in kept else 'does not list'), case=case)
+        # filter_pair bounds the right count by the left one, filter_tables the left count by the
+        # right one; inside the 1e-4 tolerance zone the two may legitimately differ, so each entry
+        # point is held to the property's two obligations on its own
+        if model.classify(m, '>=', t, a, b, min(a, b)) == model.REQUIRED:
+            if d:
+                rec.violation('size_keep', 'SizeFilter(%s,%r).filter_pair drops counts (%d,%d) although a '
+                              'pair with these counts can reach %r' % (m, t, a, b, best_sim(m, a, b)),
+                              case=case)
+        elif best_sim(m, a, b) < t - 1e-4:
+            if not d:
+                rec.violation('size_tight', 'SizeFilter(%s,%r).filter_pair keeps counts (%d,%d) whose best '
+                              'attainable similarity is %r' % (m, t, a, b, best_sim(m, a, b)), case=case)
+        elif bool(d) == ((a, b) in kept):
+            rec.count('tolerance_zone_pair_vs_tables_differences')
     return {'keep': must_keep, 'drop': must_drop}
 
 
